@@ -101,6 +101,7 @@ func vspecCovered(x int64, start int64, c int64, size int64) bool {
 //@   rely modifies bf.cseq.cursor, bf.pseq.cursor
 //@   rely ensures bf.cseq.cursor >= old(bf.cseq.cursor) && bf.pseq.cursor >= old(bf.pseq.cursor) && bf.cseq.cursor <= bf.pseq.cursor && bf.pseq.cursor <= bf.cseq.cursor+bf.size
 //@   ensures 0 <= result
+//@   modifies heap("GF.clock"), heap("GF.readAt")
 
 //@ extern (*sync.Cond).Wait
 //@   pure
@@ -125,7 +126,7 @@ func vspecCovered(x int64, start int64, c int64, size int64) bool {
 //@   ensures[C14:ring] vdefRing(bf) && bf.pseq.cursor == old(bf.pseq.cursor) && bf.pseq.gate >= old(bf.pseq.gate)
 //@   ensures[C14:space] err == nil ==> start == bf.pseq.cursor && cnt == n && start+int64(n)-bf.size <= bf.pseq.gate
 //@   ensures[C15:oversize] int64(n) > bf.size ==> err != nil
-//@   modifies bf.pseq.gate, bf.pwait
+//@   modifies bf.pseq.gate, bf.pwait, heap("GF.clock"), heap("GF.lockedAt"), heap("GF.readAt")
 
 // ringCopy: copies src into the ring dst starting at index start, wrapping around the end once.
 //@ func ringCopy
@@ -152,7 +153,7 @@ func vspecCovered(x int64, start int64, c int64, size int64) bool {
 //@   ensures[C14:nowrap] err == nil && !wrap ==> (bf.pseq.cursor&bf.mask)+int64(n) <= bf.size && sameslice(b, bf.buf[bf.pseq.cursor&bf.mask:(bf.pseq.cursor&bf.mask)+int64(n)])
 //@   ensures[C14:wrap] err == nil && wrap ==> (bf.pseq.cursor&bf.mask)+int64(n) > bf.size && sameslice(b, bf.buf[bf.pseq.cursor&bf.mask:])
 //@   ensures[C14:none] err != nil ==> len(b) == 0
-//@   modifies bf.pseq.gate, bf.pwait
+//@   modifies bf.pseq.gate, bf.pwait, heap("GF.clock"), heap("GF.lockedAt"), heap("GF.readAt")
 
 // WriteCommit: publish n bytes written into the reserved region.
 //@ func (*buffer).WriteCommit
@@ -165,7 +166,7 @@ func vspecCovered(x int64, start int64, c int64, size int64) bool {
 //@   ensures[C14:commit] err == nil ==> cnt == n && bf.pseq.cursor == old(bf.pseq.cursor)+int64(n)
 //@   ensures[C14:none] err != nil ==> cnt == 0 && bf.pseq.cursor == old(bf.pseq.cursor)
 //@   ensures[C15:signal] err == nil ==> gfield(bf.ccond, "bcast") > old(gfield(bf.ccond, "bcast"))
-//@   modifies bf.pseq.gate, bf.pwait, bf.pseq.cursor, gfield(bf.ccond, "bcast")
+//@   modifies bf.pseq.gate, bf.pwait, bf.pseq.cursor, gfield(bf.ccond, "bcast"), heap("GF.clock"), heap("GF.lockedAt"), heap("GF.readAt")
 
 // Write: copy p into the ring at the producer cursor (wrapping) and publish it. Nothing between the gate
 // (a lower bound of the consumer cursor) and the old producer cursor is overwritten.
@@ -181,7 +182,7 @@ func vspecCovered(x int64, start int64, c int64, size int64) bool {
 //@   ensures[C14:unread] forall(0, int(bf.size), func(x int) bool { return !vspecCovered(int64(x), old(bf.pseq.cursor)&bf.mask, int64(len(p)), bf.size) ==> bf.buf[x] == old(bf.buf[x]) })
 //@   ensures[C14:none] err != nil ==> r == 0 && bf.pseq.cursor == old(bf.pseq.cursor) && samearr(bf.buf)
 //@   ensures[C15:signal] err == nil ==> gfield(bf.ccond, "bcast") > old(gfield(bf.ccond, "bcast"))
-//@   modifies bf.pseq.gate, bf.pwait, bf.pseq.cursor, elems(bf.buf), gfield(bf.ccond, "bcast")
+//@   modifies bf.pseq.gate, bf.pwait, bf.pseq.cursor, elems(bf.buf), gfield(bf.ccond, "bcast"), heap("GF.clock"), heap("GF.lockedAt"), heap("GF.readAt")
 
 // ---------------------------------------------------------------- consumer side
 // rely: the producer only appends after its cursor; the unread region [consumer cursor, producer cursor) is stable.
@@ -196,7 +197,7 @@ func vspecCovered(x int64, start int64, c int64, size int64) bool {
 //@   ensures[C14:commit] err == nil ==> r == n && 0 <= n && bf.cseq.cursor == old(bf.cseq.cursor)+int64(n) && bf.cseq.cursor <= bf.pseq.cursor
 //@   ensures[C14:none] err != nil ==> r == 0 && bf.cseq.cursor == old(bf.cseq.cursor)
 //@   ensures[C15:signal] err == nil ==> gfield(bf.pcond, "bcast") > old(gfield(bf.pcond, "bcast"))
-//@   modifies bf.cseq.cursor, gfield(bf.pcond, "bcast")
+//@   modifies bf.cseq.cursor, gfield(bf.pcond, "bcast"), heap("GF.clock"), heap("GF.lockedAt"), heap("GF.readAt")
 
 // ReadWait: wait until n bytes are available and return them (in place, or assembled in tmp when they wrap).
 //@ func (*buffer).ReadWait
@@ -214,7 +215,7 @@ func vspecCovered(x int64, start int64, c int64, size int64) bool {
 //@   ensures[C14:data] err == nil ==> len(b) == n && bf.cseq.cursor+int64(n) <= bf.pseq.cursor && forall(0, n, func(k int) bool { return b[k] == byte(gh_stream[int(bf.cseq.cursor)+k]) })
 //@   ensures[C14:tmp] fresh(arr(bf.tmp)) || (arr(bf.tmp) == arr(old(bf.tmp)) && off(bf.tmp) == off(old(bf.tmp)) && cap(bf.tmp) == cap(old(bf.tmp)))
 //@   ensures[C05:size] int64(n) > bf.size ==> err != nil
-//@   modifies bf.tmp, capelems(bf.tmp)
+//@   modifies bf.tmp, capelems(bf.tmp), heap("GF.clock"), heap("GF.lockedAt"), heap("GF.readAt")
 
 // ReadPeek: return up to n available bytes without consuming them (at least one; waits while the ring is empty).
 //@ func (*buffer).ReadPeek
@@ -234,13 +235,13 @@ func vspecCovered(x int64, start int64, c int64, size int64) bool {
 //@   ensures[C14:none] !(err == nil || err == ErrBufferInsufficientData) ==> len(b) == 0
 //@   ensures[C14:tmp] fresh(arr(bf.tmp)) || (arr(bf.tmp) == arr(old(bf.tmp)) && off(bf.tmp) == off(old(bf.tmp)) && cap(bf.tmp) == cap(old(bf.tmp)))
 //@   ensures[C05:size] int64(n) > bf.size ==> err != nil
-//@   modifies bf.tmp, capelems(bf.tmp), bf.cwait
+//@   modifies bf.tmp, capelems(bf.tmp), bf.cwait, heap("GF.clock"), heap("GF.lockedAt"), heap("GF.readAt")
 
 // Close: mark the buffer done and wake both sides, each under its own lock.
 //@ func (*buffer).Close
 //@   requires vdefRingB(bf) && !held(ifaceval(bf.pcond.L, *sync.Mutex)) && !held(ifaceval(bf.ccond.L, *sync.Mutex))
 //@   ensures[C15:close] bf.done == 1 && gfield(bf.pcond, "bcast") > old(gfield(bf.pcond, "bcast")) && gfield(bf.ccond, "bcast") > old(gfield(bf.ccond, "bcast"))
-//@   modifies bf.done, gfield(bf.pcond, "bcast"), gfield(bf.ccond, "bcast")
+//@   modifies bf.done, gfield(bf.pcond, "bcast"), gfield(bf.ccond, "bcast"), heap("GF.clock"), heap("GF.lockedAt"), heap("GF.readAt")
 
 // Read: copy up to len(p) available bytes into p and consume them; waits while the ring is empty.
 //@ func (*buffer).Read
@@ -261,7 +262,7 @@ func vspecCovered(x int64, start int64, c int64, size int64) bool {
 //@   ensures[C14:data] err == nil ==> forall(0, r, func(k int) bool { return p[k] == byte(gh_stream[int(old(bf.cseq.cursor))+k]) })
 //@   ensures[C14:none] err != nil ==> r == 0 && bf.cseq.cursor == old(bf.cseq.cursor) && unchanged(p)
 //@   ensures[C15:signal] err == nil ==> gfield(bf.pcond, "bcast") > old(gfield(bf.pcond, "bcast"))
-//@   modifies bf.cseq.cursor, bf.cwait, elems(p), gfield(bf.pcond, "bcast")
+//@   modifies bf.cseq.cursor, bf.cwait, elems(p), gfield(bf.pcond, "bcast"), heap("GF.clock"), heap("GF.lockedAt"), heap("GF.readAt")
 
 // ---------------------------------------------------------------- socket pumps
 // io.Reader / io.Writer as documented: Read fills at most len(p) bytes of p and touches nothing else;
@@ -293,7 +294,7 @@ func vspecCovered(x int64, start int64, c int64, size int64) bool {
 //@   loop 1 invariant[frame] unchangedoutside(bf.buf, 0, len(bf.buf)) && preservedexcept(bf.buf)
 //@   ensures[C14:ring] vdefRing(bf) && bf.pseq.cursor >= old(bf.pseq.cursor)
 //@   ensures[C15:close] bf.done == 1
-//@   modifies bf.pseq.gate, bf.pwait, bf.pseq.cursor, bf.done, elems(bf.buf), gfield(bf.ccond, "bcast"), gfield(bf.pcond, "bcast")
+//@   modifies bf.pseq.gate, bf.pwait, bf.pseq.cursor, bf.done, elems(bf.buf), heap("GF.bcast"), heap("GF.clock"), heap("GF.lockedAt"), heap("GF.readAt")
 
 // WriteTo (consumer): every block handed to the writer is the next bytes of the stream, and exactly what the
 // writer accepted is consumed.
@@ -309,7 +310,7 @@ func vspecCovered(x int64, start int64, c int64, size int64) bool {
 //@   loop 1 invariant[frame] unchangedoutside(bf.buf, 0, len(bf.buf)) && preservedexcept(bf.buf, bf.tmp) && unchangedoutside(old(bf.tmp), 0, cap(old(bf.tmp))) && (fresh(arr(bf.tmp)) || (arr(bf.tmp) == arr(old(bf.tmp)) && off(bf.tmp) == off(old(bf.tmp)) && cap(bf.tmp) == cap(old(bf.tmp))))
 //@   ensures[C14:ring] vdefRing(bf) && bf.cseq.cursor >= old(bf.cseq.cursor)
 //@   ensures[C15:close] bf.done == 1
-//@   modifies bf.cseq.cursor, bf.cwait, bf.tmp, capelems(bf.tmp), bf.done, gfield(bf.ccond, "bcast"), gfield(bf.pcond, "bcast")
+//@   modifies bf.cseq.cursor, bf.cwait, bf.tmp, capelems(bf.tmp), bf.done, heap("GF.bcast"), heap("GF.clock"), heap("GF.lockedAt"), heap("GF.readAt")
 
 // ---------------------------------------------------------------- C17: whole packets on the outgoing ring
 //@ func (*stat).increment
@@ -335,4 +336,4 @@ func vspecCovered(x int64, start int64, c int64, size int64) bool {
 //@   atcall (*buffer).Write requires[C17:write-what-was-encoded] len(p) == gfield(0, "encn") && arr(p) == gfield(0, "encarr") && off(p) == gfield(0, "encoff")
 //@   ensures[C17:none] svc.out == nil ==> err != nil
 //@   ensures[C17:count] err == nil ==> m == gfield(0, "encn")
-//@   modifies svc.out.pseq.gate, svc.out.pwait, svc.out.pseq.cursor, elems(svc.out.buf), gfield(svc.out.ccond, "bcast"), svc.outtmp, elems(svc.outtmp), fields(addr(svc.outStat)), heap("F.message.header.remlen"), heap("F.message.header.dirty"), heap("F.message.header.packetID"), message.gPacketID
+//@   modifies svc.out.pseq.gate, svc.out.pwait, svc.out.pseq.cursor, elems(svc.out.buf), gfield(svc.out.ccond, "bcast"), svc.outtmp, elems(svc.outtmp), fields(addr(svc.outStat)), heap("F.message.header.remlen"), heap("F.message.header.dirty"), heap("F.message.header.packetID"), message.gPacketID, heap("GF.clock"), heap("GF.lockedAt"), heap("GF.readAt")
